@@ -256,6 +256,9 @@ func GenErrSpec(t *rapid.T) *ErrSpec {
 		e.ErrKind = []string{"my_kind", "session_lost", "x"}[rapid.IntRange(0, 2).Draw(t, "ekindv")]
 	}
 	e.Depth = rapid.IntRange(0, 2).Draw(t, "edepth")
+	if rapid.IntRange(0, 2).Draw(t, "etb?") == 0 {
+		e.TB = "Traceback (most recent call last):\n  upstream frame " + GenString(t, "etb")
+	}
 	return e
 }
 
